@@ -7,6 +7,9 @@ section 1: for every Unicode scalar value 1..0x10FFFF (surrogates excluded) in a
 section 2: 128 bytes upper(c) and 128 bytes lower(c) for c = 0..127 (ASCII-only mappings = C locale)
 section 3: one byte (1 = well-formed UTF-8, 0 = ill-formed) for every byte string of length 1 and 2 (odometer order, first
            byte most significant) and then for every string of length 3 and 4 over the boundary alphabet given below.
+section 4: <u32 count>, then per record <u8 n> <n bytes UTF-8 of c> <u8 m> <m bytes UTF-8 of f(c)>: every pair (c, f(c)) of a scalar value c and
+           its image under str.lower / upper / title / casefold / swapcase that differs from c (sorted; multi-character images included).
+           Not a reference but an input family: the harness compares asl's equalsNocase with asl's own toLowerCase on these pairs.
 """
 import sys, struct, itertools
 
@@ -44,6 +47,23 @@ def main():
         for t in itertools.product(ALPHA, repeat=n):
             v.append(ok(bytes(t)))
     out.write(v)
+
+    # section 4: Unicode case pairs
+    pairs = set()
+    for cp in range(1, 0x110000):
+        if 0xD800 <= cp <= 0xDFFF:
+            continue
+        ch = chr(cp)
+        for f in (str.lower, str.upper, str.title, str.casefold, str.swapcase):
+            r = f(ch)
+            if r != ch:
+                pairs.add((ch, r))
+    recs = bytearray()
+    for a, b in sorted(pairs):
+        a8, b8 = a.encode('utf-8'), b.encode('utf-8')
+        recs += bytes([len(a8)]) + a8 + bytes([len(b8)]) + b8
+    out.write(struct.pack('<I', len(pairs)))
+    out.write(recs)
     out.flush()
 
 if __name__ == '__main__':
